@@ -589,6 +589,7 @@ fn same_class(plan: &C07Plan, class: &str) -> bool {
 pub fn minimise(plan: &C07Plan, v: &C07Violation) -> (C07Plan, usize) {
     let mut budget = 400usize;
     let start = budget;
+    start_minimisation(45);
     let mut best = plan.clone();
     if let ModelSrc::Gen(_) = best.src {
         macro_rules! shrink_field {
